@@ -101,8 +101,8 @@ func (w *World) typedFault(which string) error {
 	w.faultSeq++
 	pools := map[string][]error{
 		"bank": {sdkerrors.ErrInsufficientFunds, sdkerrors.ErrInvalidCoins, sdkerrors.ErrUnauthorized, sdkerrors.ErrInvalidAddress, nil},
-		"burn": {ftftypes.ErrBurn, ftftypes.ErrUnauthorized, ftftypes.ErrPaused, ftftypes.ErrInvalidCoins, ftftypes.ErrUserNotFound, nil},
-		"mint": {ftftypes.ErrMint, ftftypes.ErrUnauthorized, ftftypes.ErrPaused, ftftypes.ErrSendCoinsToAccount, ftftypes.ErrUserNotFound, ftftypes.ErrInvalidCoins, nil},
+		"burn": {ftftypes.ErrBurn, ftftypes.ErrUnauthorized, ftftypes.ErrPaused, ftftypes.ErrInvalidCoins, ftftypes.ErrUserNotFound, ftftypes.ErrUserBlacklisted, ftftypes.ErrDenomNotRegistered, nil},
+		"mint": {ftftypes.ErrMint, ftftypes.ErrUnauthorized, ftftypes.ErrPaused, ftftypes.ErrSendCoinsToAccount, ftftypes.ErrUserNotFound, ftftypes.ErrInvalidCoins, ftftypes.ErrUserBlacklisted, ftftypes.ErrDenomNotRegistered, nil},
 	}
 	p := pools[which]
 	e := p[w.faultSeq%len(p)]
